@@ -223,7 +223,18 @@ func (x *Exec) assert(st *State, kind, label string, goal Term, tags []string, p
 }
 
 func (x *Exec) assertSafety(st *State, kind, what string, goal Term, pos token.Pos) {
-	x.assert(st, "safety/"+kind, what, goal, x.safetyTags, pos)
+	tags := x.safetyTags
+	if kind == "lock" || kind == "block" {
+		// the locking and blocking discipline is what "never blocks" (C05) and race freedom (C07) rest on, whatever
+		// else the function at hand serves — unless the mode under verification is claimed for other properties only
+		tags = append([]string{}, tags...)
+		for _, t := range []string{"C05", "C07"} {
+			if !hasTag(tags, t) && (len(x.modeTags) == 0 || hasTag(x.modeTags, t)) {
+				tags = append(tags, t)
+			}
+		}
+	}
+	x.assert(st, "safety/"+kind, what, goal, tags, pos)
 }
 
 func (x *Exec) assume(st *State, t Term) {
